@@ -10,7 +10,9 @@ job = {
   "init": [[relpath, null | text], ...],    # initial content of the output directory (null = directory), created in order
   "copy_src": null | [[relpath, null|text], ...],   # content of <project>/cp  (the folder `#copy "cp"` refers to)
   "builds": [ {"src": str, "header": null|str,
-               "touch": null|[[relpath, null|text], ...],   # files the user puts into the output directory before this build
+               "touch": null|[[relpath, null|text], ...],   # files the user puts into (or overwrites in) the output directory before this build
+               "remove": null|[relpath, ...],               # files / folders the user deletes from the output directory before this build
+               "pack_format": null|str,                     # pack format of THIS build (default: the job's)
                "crash_at": null|int,        # raise KeyboardInterrupt right after the k-th successful mutation (1-based);
                                             # if that mutation is a file write the file keeps only the first
                                             # len*torn[0]//torn[1] bytes ("torn": [num, den], default [1, 2])
@@ -296,12 +298,18 @@ def run_job(job):
                 hj.write_text(b["header"])
             elif hj.exists():
                 hj.unlink()
+            for rel in b.get("remove") or []:
+                victim = out / rel
+                if victim.is_dir():
+                    shutil.rmtree(victim)
+                elif victim.exists():
+                    victim.unlink()
             if b.get("touch"):
                 make_tree(out, b["touch"])
             for k, v in DEFAULT_NAMES.items():       # C12's subject: names must not leak between compiles of this process
                 setattr(DataPack, k, v)
             cfg = Configuration(GlobalData(), namespace=job.get("ns", "ns"), description=job.get("desc", "d"),
-                                pack_format=job.get("pack_format", "48"), target=proj / "main.jmc",
+                                pack_format=b.get("pack_format") or job.get("pack_format", "48"), target=proj / "main.jmc",
                                 output=(proj / ".." / "out") if job.get("out_dotdot") else out)
             Header().envs = []
             before = snapshot(out)
@@ -325,6 +333,7 @@ def run_job(job):
             if facts.get("copy"):
                 facts["copy_tree"] = snapshot(Path(facts["copy"]))
             facts["root"] = str(out)
+            facts["pack_format"] = b.get("pack_format") or job.get("pack_format", "48")
             res["builds"].append({"before": before, "trace": T.trace, "after": after, "stage": STATE["stage"],
                                   "exc": exc, "facts": facts, "n_mut": T.n_mut, "n_del": T.n_del})
     finally:
